@@ -247,7 +247,7 @@ let js_surface = [
   "AddToken","+"; "SubToken","-"; "MulToken","*"; "DivToken","/"; "ModToken","%"; "ExpToken","**";
   "BitNotToken","~"; "TypeofToken","typeof"; "PosToken","+"; "NegToken","-"; "PreIncrToken","++"; "PreDecrToken","--";
   "PostIncrToken","++"; "PostDecrToken","--"; "NotToken","!"; "VoidToken","void"; "DeleteToken","delete"; "AwaitToken","await" ]
-let rec jsprint_case_gen rw sx =
+let rec jsprint_case_gen ?(top = PrintModel.coq_OpAssign) rw sx =
   let toks = ref (Stdlib.List.filter (fun x -> x <> "") (split ' ' sx)) in
   let next () = match !toks with t :: r -> toks := r; t | [] -> failwith "jsprint sexpr" in
   let rec parse () =
@@ -264,7 +264,7 @@ let rec jsprint_case_gen rw sx =
     | "I" -> let fl = next () = "1" in let x = parse () in let i = parse () in PrintModel.EIndex (x, i, fl)
     | t -> failwith ("jsprint tag " ^ t) in
   let e = parse () in
-  let out = if rw then RewriteModel.print_rw PrintGen.coq_T_gen (nat_of_int 200) PrintModel.coq_OpAssign e else PrintGen.print_gen PrintModel.coq_OpAssign e in
+  let out = if rw then RewriteModel.print_rw PrintGen.coq_T_gen (nat_of_int 200) top e else PrintGen.print_gen PrintModel.coq_OpAssign e in
   Stdlib.String.concat " " (Stdlib.List.map (function
     | PrintModel.TAtom s -> ocaml_string s
     | PrintModel.TOp n -> (try Stdlib.List.assoc (ocaml_string n) js_surface with Not_found -> "?" ^ ocaml_string n)
@@ -305,6 +305,7 @@ let register (reg : string -> (string list -> string) -> unit) =
   reg "pathsep" (function [d] -> pathsep_case d | [] -> pathsep_case "" | _ -> "BADARGS");
   reg "jsprint" (function [sx] -> jsprint_case_gen false sx | _ -> "BADARGS");
   reg "jsrw" (function [sx] -> jsprint_case_gen true sx | _ -> "BADARGS");
+  reg "jsrw0" (function [sx] -> jsprint_case_gen ~top:PrintModel.coq_OpExpr true sx | _ -> "BADARGS");
   reg "cssbox" (function [v] -> Stdlib.String.concat "," (Stdlib.List.map (fun n -> string_of_int (int_of_nat n)) (CssBox.box_collapse_nat (intlist v))) | _ -> "BADARGS");
   reg "tokbuf" (function [t; o] -> tokbuf t o | _ -> "BADARGS");
   reg "json_tree" (function [t] -> show_events (JsonSpec.events_of JsonModel.SValue (parse_tree t)) | _ -> "BADARGS")
